@@ -28,13 +28,14 @@ def init : State := { ctxs := [{ id := 0, subs := [], q := [], cap := 128, parke
 def Ctx.matches (c : Ctx) (body : Bytes) : Bool := c.subs.any (fun s => isPrefix s body)
 
 /-- one arriving message offered to one context: direct hand-off to a parked Recv, else enqueue,
-    dropping the oldest when full (capacity 0 with nobody waiting cannot be represented: see C19) -/
+    dropping the oldest when full -/
 def Ctx.offer (c : Ctx) (body : Bytes) : Ctx × List (Nat × Ev) :=
   if c.closed || !c.matches body then (c, []) else
   match c.parked with
   | call :: rest => ({ c with parked := rest }, [(call, retMsg call [] body)])
   | [] =>
     if c.q.length < c.cap then ({ c with q := c.q ++ [body] }, [])
+    else if c.cap = 0 then (c, [])           -- a queue of length zero never has room: the message is dropped
     else ({ c with q := c.q.tail ++ [body] }, [])
 
 def Ctx.subscribe (c : Ctx) (t : Bytes) : Ctx :=
